@@ -112,7 +112,16 @@ type c05Case struct {
 	largeN, largeSize int
 	maxGrid           int  // 0 = c05MaxGrid
 	bounded           bool // selection draws cost a deviation (deviation-bounded exploration of the large-group family)
+	// accounted-row family: acctRow-1 is the index of a row that is *accounted* to its metric while its own key names
+	// another metric (agent and aggregator do that with ingestion-status rows about a user metric: MetricID = the user
+	// metric, Item.Key.Metric / Item.MetricMeta = the built-in one); every row then carries the meta of its own
+	// Key.Metric, as the real callers' rows do. 0 = no such row, rows carry no meta (the sampler looks everything up).
+	acctRow int
 }
+
+// c05StatusMeta is the meta an accounted row carries: a built-in-like status metric (not NoSampleAgent, no fair key,
+// default namespace, built-in group). It is never the accounted metric of any row.
+var c05StatusMeta = &format.MetricMetaValue{MetricID: format.BuiltinMetricIDIngestionStatus, NamespaceID: format.BuiltinNamespaceIDDefault, GroupID: format.BuiltinGroupIDBuiltin, EffectiveWeight: 1}
 
 // rowTypes resolves the rows of the case.
 func (c *c05Case) rowTypes() []c05RowType {
@@ -149,6 +158,9 @@ func (c *c05Case) String() string {
 	if c.fixedM != 0 {
 		s += fmt.Sprintf(" fixedBudget(metric %d)=%d", c.fixedM, c.fixedB)
 	}
+	if c.acctRow > 0 {
+		s += fmt.Sprintf(" accounted(row %d has Key.Metric/MetricMeta of a built-in status metric and is accounted to its metric; every row carries the meta of its own Key.Metric)", c.acctRow-1)
+	}
 	return s
 }
 
@@ -173,7 +185,35 @@ func (h c05RoundHook) Float64() float64        { return h.v }
 func (h c05RoundHook) Uint64n(n uint64) uint64 { return 0 }
 func (h c05RoundHook) Uint64() uint64          { return 0 }
 
-func c05Run(x *mc.Exec, c *c05Case, meta *c05Meta, grid int, forced string) (obs c05ExecObs) {
+// c05BuildItems builds the rows of a case. They are the sampler's input: it reads them and writes only their SF
+// (reset by c05Run), so one set serves all executions of one exploration (every execution still builds a fresh
+// sampler); a MultiItem is large and allocating it per execution was a fifth of the run time.
+func c05BuildItems(c *c05Case, meta *c05Meta) []*MultiItem {
+	rts := c.rowTypes()
+	items := make([]*MultiItem, len(rts))
+	for i, rt := range rts {
+		it := &MultiItem{Key: Key{Metric: rt.metric}, SF: 1}
+		if c.acctRow > 0 {
+			it.MetricMeta = meta.metrics[rt.metric]
+			if c.acctRow-1 == i {
+				it.Key.Metric = c05StatusMeta.MetricID
+				it.MetricMeta = c05StatusMeta
+			}
+		}
+		it.Key.Tags[0] = rt.key
+		it.Key.Tags[1] = int32(i + 1)
+		it.Key.Tags[2] = int32(i)
+		it.Tail.Value.AddValueCounter(float64(i+1), 3)
+		if rt.uniq {
+			it.Tail.HLL.Insert(uint64(i + 1))
+			it.Tail.HLL.Insert(uint64(i + 100))
+		}
+		items[i] = it
+	}
+	return items
+}
+
+func c05Run(x *mc.Exec, c *c05Case, meta *c05Meta, grid int, forced string, items []*MultiItem) (obs c05ExecObs) {
 	rts := c.rowTypes()
 	obs.rows = make([]c05RowObs, len(rts))
 	var path []byte
@@ -244,15 +284,8 @@ func c05Run(x *mc.Exec, c *c05Case, meta *c05Meta, grid int, forced string) (obs
 	}
 	s := NewSampler(cfg)
 	for i, rt := range rts {
-		it := &MultiItem{Key: Key{Metric: rt.metric}, SF: 1}
-		it.Key.Tags[0] = rt.key
-		it.Key.Tags[1] = int32(i + 1)
-		it.Key.Tags[2] = int32(i)
-		it.Tail.Value.AddValueCounter(float64(i+1), 3)
-		if rt.uniq {
-			it.Tail.HLL.Insert(uint64(i + 1))
-			it.Tail.HLL.Insert(uint64(i + 100))
-		}
+		it := items[i]
+		it.SF = 1 // the only field of a row the sampler writes
 		var fb uint32
 		if c.fixedM == rt.metric {
 			fb = c.fixedB
@@ -281,8 +314,9 @@ type c05Viol struct{ sig, desc string }
 
 func c05Explore(c *c05Case, meta *c05Meta, grid int, forced string, maxExec int64) (map[string]c05ExecObs, mc.Stats) {
 	seen := map[string]c05ExecObs{}
+	items := c05BuildItems(c, meta)
 	body := func(x *mc.Exec) mc.Verdict {
-		obs := c05Run(x, c, meta, grid, forced)
+		obs := c05Run(x, c, meta, grid, forced, items)
 		// explorer phase 1 and its workers both run complete executions: keep one observation per choice sequence
 		key := fmt.Sprint(x.Choices)
 		seen[key] = obs
@@ -503,8 +537,9 @@ func c05CheckLarge(c *c05Case, meta *c05Meta, maxExecExact, maxExecBounded int64
 	}
 	var all []ex
 	seen := map[string]bool{}
+	items := c05BuildItems(&cb, meta)
 	body := func(x *mc.Exec) mc.Verdict {
-		obs := c05Run(x, &cb, meta, grid, "")
+		obs := c05Run(x, &cb, meta, grid, "", items)
 		key := fmt.Sprint(x.Choices)
 		if !seen[key] {
 			seen[key] = true
@@ -686,7 +721,7 @@ func c05Multisets(alpha, maxLen int, f func(rows []int)) {
 
 func TestVerifC05(t *testing.T) {
 	rep := mc.NewReport("C05")
-	rep.Rule = "every multiset of at most R rows over a 9-letter row alphabet (4 metrics in 2 namespaces / 3 groups with unequal weights; one NoSampleAgent metric; one metric with a fair key of 2 values; sizes 0/1/2; whale weights; rows with and without a unique-set) x every budget x no / one fixed per-metric budget x all 128 combinations of the 7 sampler options; for each, every outcome of every rounding draw and every grid point of every selection draw. Non-trivial = some row is kept with probability strictly between 0 and 1"
+	rep.Rule = "every multiset of at most R rows over a 9-letter row alphabet (4 metrics in 2 namespaces / 3 groups with unequal weights; one NoSampleAgent metric; one metric with a fair key of 2 values; sizes 0/1/2; whale weights; rows with and without a unique-set) x every budget x no / one fixed per-metric budget (carried by every metric in turn, below and at a row size) x all 128 combinations of the 7 sampler options; buckets of <= 2 rows again with every row in turn being a row accounted to its metric while its own key and attached meta are a built-in status metric's; for each, every outcome of every rounding draw and every grid point of every selection draw. Non-trivial = some row is kept with probability strictly between 0 and 1"
 	maxRows := mc.Pick(3, 4)
 	budgets := mc.Pick([]int64{1, 2, 3, 100}, []int64{0, 1, 2, 3, 4, 6, 100})
 	maxExec := int64(mc.Pick(16000, 400000))
@@ -694,10 +729,17 @@ func TestVerifC05(t *testing.T) {
 		m int32
 		b uint32
 	}
-	fixed := mc.Pick([]fixedVar{{0, 0}, {1, 1}, {4, 2}}, []fixedVar{{0, 0}, {1, 1}, {1, 2}, {4, 2}, {3, 1}})
+	// The fixed per-metric budget is carried by every metric of the world in turn (so it meets every metric attribute:
+	// NoSampleAgent, fair key, each namespace/group/weight), with a value below a row size (1) and one that a row
+	// fits (2). fixedRows3 = how many of the variants are also applied to 3-row buckets (buckets of <= 2 rows get all of them).
+	fixed := []fixedVar{{0, 0}, {1, 1}, {2, 1}, {4, 2}, {3, 1}, {1, 2}, {2, 2}, {4, 1}, {3, 2}}
+	fixedRows3 := mc.Pick(5, 7)
+	acctMaxRows := 2
 	variants := mc.Pick(1, 2)
 	rep.Bounds["max_rows"] = maxRows
-	rep.Bounds["reduced_product_for_4_rows"] = "6-letter alphabet (without m4s0, m4s1u, m1s2u), weight world 0, fixed budgets {none,(m1,1)}, budgets {2,3}, 32 option combinations (DisableNoSampleAgent off, SampleBudgets iff a fixed budget is present)"
+	rep.Bounds["reduced_product_for_4_rows"] = "6-letter alphabet (without m4s0, m4s1u, m1s2u), weight world 0, fixed budgets {none,(m1,1),(m2,1) with ModeAgent}, budgets {2,3}, 32 option combinations (DisableNoSampleAgent off, SampleBudgets iff a fixed budget is present)"
+	rep.Bounds["fixed_per_metric_budgets_for_3_row_buckets"] = fmt.Sprint(fixed[:fixedRows3])
+	rep.Bounds["accounted_row_family"] = fmt.Sprintf("every case of at most %d rows (first weight world%s) again with every row in turn being an accounted row (Key.Metric and MetricMeta of a built-in status metric, MetricID = the row's metric) while all rows carry the meta of their own Key.Metric", acctMaxRows, mc.Pick(", DisableNoSampleAgent off", ""))
 	rep.Bounds["row_alphabet"] = fmt.Sprintf("%+v", c05Alphabet)
 	rep.Bounds["budgets"] = fmt.Sprint(budgets)
 	rep.Bounds["fixed_per_metric_budgets_metric_budget"] = fmt.Sprint(fixed)
@@ -733,7 +775,10 @@ func TestVerifC05(t *testing.T) {
 				if fv.m != 0 && !has[fv.m] {
 					continue // a fixed budget of an absent metric changes nothing the sampler sees
 				}
-				if big && fi > 1 {
+				if big && fi > 2 {
+					continue
+				}
+				if len(rows) >= 3 && fi >= fixedRows3 {
 					continue
 				}
 				for _, b := range budgets {
@@ -750,7 +795,15 @@ func TestVerifC05(t *testing.T) {
 						if big && (fl&4 != 0 || (fv.m == 0 && fl&8 != 0)) {
 							continue // 4 rows: DisableNoSampleAgent off, SampleBudgets only together with a fixed budget
 						}
+						if big && fi == 2 && fl&1 == 0 {
+							continue // 4 rows: the NoSampleAgent metric's fixed budget only in agent mode
+						}
 						cases = append(cases, c05Case{rows: append([]int{}, rows...), flags: fl, budget: b, fixedM: fv.m, fixedB: fv.b, variant: v})
+						if len(rows) <= acctMaxRows && v == 0 && (mc.Thorough() || fl&4 == 0) {
+							for a := 1; a <= len(rows); a++ {
+								cases = append(cases, c05Case{rows: append([]int{}, rows...), flags: fl, budget: b, fixedM: fv.m, fixedB: fv.b, variant: v, acctRow: a})
+							}
+						}
 					}
 				}
 			}
